@@ -37,6 +37,7 @@ import (
 
 const dsSlotsShown = 6
 const dsEncCodes = "TSUWXVYR"
+const dsTwinMaxMsgs = 400   // histories longer than this (the "server full" line) are not run a second time
 const dsAllocLimit = 24 << 20 // bytes allocated by one handler call before the C12 monitor complains
 
 type dsAddr string
@@ -121,7 +122,7 @@ func (w *dsWorld) drainAccept() (fresh []net.Conn) {
 
 // namedId is the identifier a message carries as far as the server's dispatch is concerned: the header of the first
 // command whose letter matches (0 for commands without a user id), parsed with the real decoder
-func (w *dsWorld) namedId(q *dns.Msg) (uid int, ok bool) {
+func (w *dsWorld) namedId(q *dns.Msg) (uid int, ok bool, needsUser bool) {
 	defer func() {
 		if e := recover(); e != nil {
 			ok = false
@@ -131,16 +132,16 @@ func (w *dsWorld) namedId(q *dns.Msg) (uid int, ok bool) {
 	for _, c := range commands.Commands {
 		if c.IsOfType(req) {
 			if c.NewRequest == nil {
-				return 0, false
+				return 0, false, false
 			}
 			_, u, err := commands.DecodeRequestHeader(c, req)
 			if err != nil {
-				return 0, false
+				return 0, false, false
 			}
-			return int(u), true
+			return int(u), true, c.NeedsUserId
 		}
 	}
-	return 0, false
+	return 0, false, false
 }
 
 // liveIds maps the identifiers that are live right now to the sid of the session object holding them
@@ -419,8 +420,24 @@ var dsTrace = os.Getenv("VERIF_DNS_TRACE") == "1"
 
 var errDsStop = errors.New("verif: stop write")
 
+// dsRecord is what the non-interference monitor needs of a run: for every message op (in order) its index among the
+// ops, the canonical answer, and whether the message was expected to be inert when it was processed (it did not come
+// from the owner of a live session holding the identifier it carries, and it was not answered with a successful
+// open); at the end the placement and state (without times) of every session object.
+type dsRecord struct {
+	twinOf   *dsRecord // set for the second run: the record of the first
+	opened   []bool    // per message: a new connection came out of Accept()
+	opIdx    []int
+	from     []string
+	answers  []string
+	inert    []bool
+	finals   []string
+	complete bool // ran to the last op (no panic, no hang)
+	timed    bool // the line sleeps in real time
+}
+
 // dsRun executes a whole line; returns result, monitor, class info
-func dsRun(line string) (result, monitor string, nMsgs int, classes []string) {
+func dsRun(line string, rec *dsRecord) (result, monitor string, nMsgs int, classes []string) {
 	toks := strings.Fields(line)
 	if len(toks) < 2 {
 		return "bad-op", "", 0, nil
@@ -461,7 +478,7 @@ func dsRun(line string) (result, monitor string, nMsgs int, classes []string) {
 			monitor = m
 		}
 	}
-	for _, op := range ops {
+	for opNo, op := range ops {
 		f := strings.Split(op, ":")
 		switch f[0] {
 		case "m":
@@ -488,7 +505,18 @@ func dsRun(line string) (result, monitor string, nMsgs int, classes []string) {
 			q.Question = []dns.Question{{Name: string(nameb), Qtype: uint16(qt), Qclass: uint16(dnsmessage.ClassINET)}}
 			codec := w.answerCodec(q)
 			idsBefore := w.liveIds()
-			named, hasNamed := w.namedId(q)
+			named, hasNamed, needsUser := w.namedId(q)
+			// the live session this message names, if its sender owns it
+			namedSid := -1
+			if sid, ok := idsBefore[named]; ok && hasNamed && ownerBefore[sid] == f[1] {
+				namedSid = sid
+			}
+			msgNo := nMsgs - 1
+			if rec != nil && rec.twinOf != nil && namedSid < 0 && (msgNo >= len(rec.twinOf.opened) || !rec.twinOf.opened[msgNo]) {
+				// second run of the non-interference monitor: a message that, in THIS run, does not come from the owner of
+				// a live session it names — and that did not open a session in the first run — is left out
+				continue
+			}
 			var resp *dns.Msg
 			var herr error
 			panicked := ""
@@ -527,17 +555,39 @@ func dsRun(line string) (result, monitor string, nMsgs int, classes []string) {
 			}
 			// a message changes at most the session it names (the live session with that identifier, if the sender owns
 			// it) — also when the sender owns several sessions
-			namedSid := -1
-			if sid, ok := idsBefore[named]; ok && hasNamed && ownerBefore[sid] == f[1] {
-				namedSid = sid
-			}
 			for sid, b := range before {
 				if sid != namedSid && after[sid] != b {
 					note(fmt.Sprintf("message from %s carrying identifier %d changed session S%d (%s), which does not hold that identifier", f[1], named, sid, ownerBefore[sid]))
 				}
 			}
+			// liveness of the owner's own traffic: a session-bound command (one that carries an identifier) from the
+			// address that owns the live session holding that identifier is never refused as a closed / unknown /
+			// foreign connection — whatever earlier sessions used the identifier before and however they ended
+			if namedSid >= 0 && needsUser {
+				if p := strings.Split(a, ":"); len(p) >= 2 && (p[1] == "BADCONN" || p[1] == "BADUSER" || p[1] == "BADIP") {
+					earlier := ""
+					if r := w.srv.VerifSlot(named, true); r != nil {
+						earlier = fmt.Sprintf(" (the retired table still remembers the earlier session S%d of %s under that identifier)", w.sidOf(r.Obj), dsAddrName(r.Owner))
+					}
+					note(fmt.Sprintf("message from %s carrying identifier %d, held by the live session S%d of %s, was refused with %s%s: a live session is unusable for its own peer",
+						f[1], named, namedSid, f[1], p[1], earlier))
+				}
+			}
 			// every successful open: an identifier no live session held, and a new session object of its own out of Accept()
 			fresh := w.drainAccept()
+			if rec != nil {
+				// an open is recognised by its effect (a new connection out of Accept()), not by its answer: the answer to a
+				// version request is lost when it cannot be wrapped in the requested record type, the session exists anyway
+				for len(rec.answers) < msgNo {
+					rec.opIdx, rec.from, rec.answers = append(rec.opIdx, -1), append(rec.from, ""), append(rec.answers, "")
+					rec.inert, rec.opened = append(rec.inert, true), append(rec.opened, false)
+				}
+				rec.opIdx = append(rec.opIdx, opNo)
+				rec.from = append(rec.from, f[1])
+				rec.answers = append(rec.answers, a)
+				rec.inert = append(rec.inert, namedSid < 0 && len(fresh) == 0)
+				rec.opened = append(rec.opened, len(fresh) > 0)
+			}
 			if strings.HasPrefix(a, "v:OK:") {
 				id, _ := strconv.Atoi(a[5:])
 				w.opens++
@@ -710,7 +760,98 @@ func dsRun(line string) (result, monitor string, nMsgs int, classes []string) {
 			fmt.Fprintf(os.Stderr, "TRACE %s => %s\n      %s\n      mon=%s\n", op, last, w.snapshot(), monitor)
 		}
 	}
+	if rec != nil {
+		rec.complete = true
+		rec.timed = elapsed > 0
+		v := w.views()
+		for sid := range w.objs {
+			// placement + state, without the last-contact time
+			d := v[sid]
+			if k := strings.LastIndexByte(d, '@'); k >= 0 {
+				d = d[:k]
+			}
+			rec.finals = append(rec.finals, d)
+		}
+	}
 	return strings.Join(answers, ";") + "|" + w.snapshot(), monitor, nMsgs, classes
+}
+
+// dsNonInterference states "no query can disturb established sessions" directly: delete from the history every
+// message that, when it was processed, did not come from the owner of a live session holding the identifier it
+// carries and did not open a session (strangers' and spoofers' commands of every kind, commands for closed or
+// unknown identifiers, malformed names ...), run the remaining history on a fresh listener, and compare what every
+// remaining message was answered and the final placement and state of every session object.  On a server that keeps
+// the property the deleted messages are no-ops on the session tables, so both runs must agree exactly.
+func dsNonInterference(line string, rec *dsRecord) string {
+	if rec == nil || !rec.complete || rec.timed || len(rec.answers) > dsTwinMaxMsgs {
+		return ""
+	}
+	nInert := 0
+	for _, x := range rec.inert {
+		if x {
+			nInert++
+		}
+	}
+	if nInert == 0 {
+		return ""
+	}
+	toks := strings.Fields(line)
+	cut := 0
+	for cut < len(toks) && toks[cut] != "--" {
+		cut++
+	}
+	if cut >= len(toks) {
+		return ""
+	}
+	ops := toks[cut+1:]
+	// the second run decides by ITS OWN state which messages are left out (on a server that keeps the property both runs
+	// are in the same state throughout, so this is the same set); a message that opened a session in the first run stays
+	twin := &dsRecord{twinOf: rec}
+	dsRun(line, twin)
+	if !twin.complete {
+		return fmt.Sprintf("non-interference: the history without its stray messages does not run to the end")
+	}
+	var strays []string
+	left := 0
+	for k := range rec.answers {
+		if k >= len(twin.answers) || twin.opIdx[k] < 0 {
+			strays = append(strays, fmt.Sprintf("#%d from %s (%s)", k+1, rec.from[k], rec.answers[k]))
+			left++
+			continue
+		}
+		if twin.answers[k] != rec.answers[k] {
+			last := "none"
+			if len(strays) > 0 {
+				last = strings.Join(strays[dsMax0(len(strays)-3):], ", ")
+			}
+			return fmt.Sprintf("non-interference: message #%d (from %s, op %s) is answered %s, but %s when the messages that do not come from the owner of a live session they name are left out; left out before it: %s",
+				k+1, rec.from[k], dsShort(ops[rec.opIdx[k]]), rec.answers[k], twin.answers[k], last)
+		}
+	}
+	if len(twin.finals) != len(rec.finals) {
+		return fmt.Sprintf("non-interference: %d session objects with the stray messages, %d without", len(rec.finals), len(twin.finals))
+	}
+	for sid := range rec.finals {
+		if rec.finals[sid] != twin.finals[sid] {
+			return fmt.Sprintf("non-interference: session S%d ends as [%s], but as [%s] when the %d messages that do not come from the owner of a live session they name are left out (%s)",
+				sid, rec.finals[sid], twin.finals[sid], left, strings.Join(strays[:minInt(len(strays), 4)], ", "))
+		}
+	}
+	return ""
+}
+
+func dsMax0(a int) int {
+	if a < 0 {
+		return 0
+	}
+	return a
+}
+
+func dsShort(op string) string {
+	if len(op) > 60 {
+		return op[:60] + "…"
+	}
+	return op
 }
 
 // dsRunChild runs the line in a child process with a 3 GiB address-space limit (ops that may ask the server
@@ -762,7 +903,16 @@ func dsExec(comp, prefix, op string) (string, string, string, bool) {
 		res, mon := dsRunChild(comp, prefix, op)
 		return res, mon, "big", true
 	}
-	res, mon, _, classes := dsRun(strings.Replace(op, " !big", "", 1))
+	rec := &dsRecord{}
+	line := strings.Replace(op, " !big", "", 1)
+	res, mon, _, classes := dsRun(line, rec)
+	if ni := dsNonInterference(line, rec); ni != "" {
+		if mon == "" {
+			mon = ni
+		} else {
+			mon += " || " + ni
+		}
+	}
 	// class = sorted set of answer kinds (letter + error code) seen in the line
 	set := map[string]bool{}
 	nontrivial := false
@@ -805,20 +955,32 @@ func (dxComp) Gen(r *Rand, tier string, emit func(string)) {
 		return
 	}
 	b := dsNewBuilder(r, "t.co")
-	b.orTok = append(b.orTok, "T:40:50")
+	// ConnectionTimeout 30 s, OldConnectionTimeout 50 s; every deadline below has >= 10 s of slack on either side
+	b.orTok = append(b.orTok, "T:30:50")
 	b.open("a1", sadns.ProtocolVersion)                                    // A: id 0
-	b.open("a3", sadns.ProtocolVersion)                                    // C: id 1, never heard of again
+	b.open("a3", sadns.ProtocolVersion)                                    // C: id 1
 	b.options("a1", 0, &commands.SetOptionsRequest{Closed: bp(true)})      // A retired at t=0
 	b.open("a2", sadns.ProtocolVersion)                                    // B re-uses id 0
 	b.write(2, []byte("data for B"))
-	b.ops = append(b.ops, "s:30")
-	b.packet("a2", 0, 65535, nil, 40) // B heard at t=30
-	b.ops = append(b.ops, "s:25")
+	b.ops = append(b.ops, "s:20")
+	b.packet("a3", 1, 65535, nil, 40) // C heard at t=20 for the last time
+	b.ops = append(b.ops, "s:15")
+	b.packet("a2", 0, 65535, nil, 40) // B heard at t=35
+	b.ops = append(b.ops, "s:20")
 	b.packet("a2", 0, 65535, nil, 40) // B heard at t=55
-	b.ops = append(b.ops, "s:20")     // the pruning task ran at t=60: C is stale (40 s), A's retired entry is stale (50 s)
+	b.ops = append(b.ops, "s:20")     // the pruning task ran at t=60: C is stale (20+30 < 60) and EXPIRES into the retired table, where it
+	//                                   stays (20+50 > 60); A's retired entry is stale (0+50 < 60) and is dropped
 	b.packet("a2", 0, 65535, nil, 40) // t=75: B must still be served
-	b.packet("a3", 1, 65535, nil, 40) // C is gone
+	b.packet("a3", 1, 65535, nil, 40) // C expired: BADCONN
 	b.packet("a1", 0, 65535, nil, 40) // A's id belongs to B now: BADIP (its retired entry is gone)
+	// the expired identifier is issued again, to the same address, while its retired entry exists: object 3 must work
+	if sid, ok := b.slots[1]; ok {
+		b.retire(sid)
+	}
+	b.open("a3", sadns.ProtocolVersion)
+	b.write(3, []byte("data for D"))
+	b.packet("a3", 1, 65535, &util.Packet{SeqNo: 0, Data: []byte("from D")}, 40)
+	b.packet("a3", 1, 0, nil, 40)
 	emit(b.line())
 }
 
@@ -838,11 +1000,20 @@ type dsBuilder struct {
 	orTok  []string
 	ops    []string
 	sess   []*dsShadowSess
-	slots  map[int]int // uid -> sid of live session
+	slots  map[int]int    // uid -> sid of live session
+	old    map[int]string // uid -> owner of the session the retired table remembers under that identifier
 }
 
 func dsNewBuilder(r *Rand, dom string) *dsBuilder {
-	return &dsBuilder{r: r, dom: dom, oracle: map[string]bool{}, slots: map[int]int{}}
+	return &dsBuilder{r: r, dom: dom, oracle: map[string]bool{}, slots: map[int]int{}, old: map[int]string{}}
+}
+
+// retire moves the shadow session out of the live table (what closeConnection does)
+func (b *dsBuilder) retire(sid int) {
+	s := b.sess[sid]
+	s.live = false
+	delete(b.slots, s.uid)
+	b.old[s.uid] = s.owner
 }
 
 func (b *dsBuilder) addOracle(code byte, in []byte) {
@@ -959,6 +1130,11 @@ func (b *dsBuilder) open(addr string, version uint32) {
 	if version != sadns.ProtocolVersion {
 		return
 	}
+	// a version request carries no identifier and is looked up as identifier 0: from the address of the RETIRED session 0
+	// (no live one) it is answered BADCONN and opens nothing (notes/C13.md, "user-less commands")
+	if _, live0 := b.slots[0]; !live0 && b.old[0] == addr {
+		return
+	}
 	uid := 0
 	for {
 		if _, used := b.slots[uid]; !used {
@@ -1006,8 +1182,7 @@ func (b *dsBuilder) options(addr string, uid int, o *commands.SetOptionsRequest)
 	b.msg(addr, b.qtype(0, 'T'), n, 'T')
 	if s := b.ownerLive(uid, addr); s != nil {
 		if o.Closed != nil && *o.Closed {
-			s.live = false
-			delete(b.slots, uid)
+			b.retire(b.slots[uid])
 			return
 		}
 		if o.UpstreamEncoder != nil {
@@ -1051,8 +1226,7 @@ func (b *dsBuilder) closeObj(sid int) {
 		s := b.sess[sid]
 		// closeConnection retires the object only while it is the live holder of its id
 		if cur, ok := b.slots[s.uid]; ok && cur == sid {
-			b.sess[cur].live = false
-			delete(b.slots, s.uid)
+			b.retire(cur)
 		}
 	}
 }
@@ -1163,6 +1337,51 @@ func dsHistory(r *Rand, dom string, nOps int) string {
 	return b.line()
 }
 
+// dsReissue: see Gen.  how = 0 the client closes, 1 the application closes the object, 2 the client closes and the
+// application closes the old object once more after the identifier was re-issued
+func dsReissue(r *Rand, dom, keeper, oldOwner, newOwner string, how int) string {
+	b := dsNewBuilder(r, dom)
+	b.open(keeper, sadns.ProtocolVersion)   // identifier 0, object 0
+	b.open(oldOwner, sadns.ProtocolVersion) // identifier 1, object 1
+	b.packet(oldOwner, 1, 65535, &util.Packet{SeqNo: 0, Data: []byte("old-up-0")}, 40)
+	b.write(1, []byte("old-down"))
+	b.packet(oldOwner, 1, 65535, nil, 40)
+	b.packet(oldOwner, 1, 0, &util.Packet{SeqNo: 1, Data: []byte("old-up-1")}, 40)
+	if how == 1 {
+		b.closeObj(1)
+	} else {
+		b.options(oldOwner, 1, &commands.SetOptionsRequest{Closed: bp(true)})
+	}
+	b.packet(oldOwner, 1, 0, nil, 0)         // the closed identifier: BADCONN
+	b.open(newOwner, sadns.ProtocolVersion) // identifier 1 again, object 2
+	b.write(2, []byte("new-down-0"))
+	b.packet(newOwner, 1, 65535, &util.Packet{SeqNo: 0, Data: []byte("new-up-0")}, 40)
+	b.options(newOwner, 1, &commands.SetOptionsRequest{LazyMode: bp(true), UpstreamEncoder: dsEncoder("TSU"[how])})
+	b.packet(newOwner, 1, 0, &util.Packet{SeqNo: 1, Data: []byte("new-up-1")}, 40)
+	b.fragTest(newOwner, 1, 10)
+	b.upTest(newOwner, 1, []byte("aA"))
+	if oldOwner != newOwner {
+		// the previous holder does not know: its commands must be refused and change nothing
+		b.packet(oldOwner, 1, 0, &util.Packet{SeqNo: 2, Data: []byte("stale")}, 40)
+		b.options(oldOwner, 1, &commands.SetOptionsRequest{Closed: bp(true)})
+		b.upTest(oldOwner, 1, []byte("x"))
+	}
+	if how == 2 {
+		b.closeObj(1)
+	}
+	b.write(2, []byte("new-down-1"))
+	b.packet(newOwner, 1, 0, nil, 40)
+	b.packet(newOwner, 1, 1, &util.Packet{SeqNo: 2, Data: []byte("new-up-2")}, 40)
+	b.packet(keeper, 0, 65535, &util.Packet{SeqNo: 0, Data: []byte("keeper")}, 40)
+	// once more: the new session ends, the identifier goes back to the first address
+	b.options(newOwner, 1, &commands.SetOptionsRequest{Closed: bp(true)})
+	b.open(oldOwner, sadns.ProtocolVersion) // identifier 1, object 3
+	b.write(3, []byte("third-down"))
+	b.packet(oldOwner, 1, 65535, &util.Packet{SeqNo: 0, Data: []byte("third-up")}, 40)
+	b.packet(oldOwner, 1, 0, nil, 40)
+	return b.line()
+}
+
 func (dsComp) Gen(r *Rand, tier string, emit func(string)) {
 	doms := []string{"example.com", "t.co", "tunnel.some-longer-zone.example.org"}
 	// enumerated scenarios -------------------------------------------------------------
@@ -1239,6 +1458,20 @@ func (dsComp) Gen(r *Rand, tier string, emit func(string)) {
 				b.packet("a2", n, 65535, &util.Packet{SeqNo: 0, Data: []byte("up-a2")}, 40)
 				b.packet("a1", n, 65535, nil, 40) // a1 does not own it
 				emit(b.line())
+			}
+		}
+	}
+	// an identifier is re-issued while the retired table still remembers its previous holder: open / traffic / retire
+	// (client close, application Close()) / REOPEN by the same address, the same host with another port, another
+	// host / real traffic on the new session in both directions, option changes, tests / the previous holder's stale
+	// commands / a second Close() of the old object / the other session's traffic / close and re-issue once more.
+	// Identifier 0 stays with a third session throughout (user-less commands are looked up as identifier 0, see notes).
+	for _, dom := range doms[:2] {
+		for _, keeper := range []string{"a1", "a3"} {
+			for _, pair := range [][2]string{{"a1", "a1"}, {"a1", "a2"}, {"a1", "a3"}, {"a2", "a2"}, {"a5", "a6"}, {"a3", "a1"}} {
+				for how := 0; how < 3; how++ {
+					emit(dsReissue(r, dom, keeper, pair[0], pair[1], how))
+				}
 			}
 		}
 	}
